@@ -39,10 +39,23 @@ class Prop:
         return []
 
 
+def ctor_variations(rng, cfg):
+    """Constructor arguments that must not change what the session does."""
+    if rng.random() < 0.15 and (cfg["version"] == "v3" or (cfg["version"] == "v2c" and not cfg.get("user"))):
+        cfg["version_auto"] = True  # version=None: v3 iff a user is given, else v2c
+    if rng.random() < 0.1:
+        cfg["tos"] = rng.choice([0x10, 0x28, 0xB8])
+    if rng.random() < 0.1:
+        cfg["send_buffer"] = rng.choice([4096, 65536, 1 << 20])
+    if rng.random() < 0.1:
+        cfg["recv_buffer"] = rng.choice([4096, 65536, 1 << 20])
+    return cfg
+
+
 def community_session(rng, version, flavour=None, **kw):
     cfg = {"version": version, "community": rng.choice(["public", "c0", "private-community-string", ""]), "timeout_ns": gen.timeout_ns(rng)}
     cfg.update(kw)
-    return cfg
+    return ctor_variations(rng, cfg)
 
 
 def v3_setup(rng, level, discover=None, ktypes=None):
@@ -57,7 +70,7 @@ def v3_setup(rng, level, discover=None, ktypes=None):
         sess["engine_id"] = eng
     elif rng.random() < 0.35:
         sess["engine_id_empty"] = True
-    return agent, sess
+    return agent, ctor_variations(rng, sess)
 
 
 def needs_refresh(sess):
@@ -101,7 +114,7 @@ def multi_setup(rng, versions, levels=None, ktypes=None, discover_p=0.5, mib_row
             cfg["allow_bulk"] = rng.random() < 0.5
         if rng.random() < 0.5:
             cfg["max_repetitions"] = rng.choice([1, 2, 5, 10, 50])
-        sessions.append(cfg)
+        sessions.append(ctor_variations(rng, cfg))
     return agent, sessions
 
 
